@@ -13,7 +13,7 @@ def main(tier: str, seed: int) -> int:
     run = Run(PROP, tier, seed)
     np = run.pick(4, 7)
     shards = []
-    ov = {"skipuntil": True, "tags": True, "trivia_explicit": True, "trivia_refs": True, "ci_nonascii": True, "zero_counts": True, "skipuntil_ci": True}
+    ov = {"more_builtins": True, "skipuntil": True, "tags": True, "trivia_explicit": True, "trivia_refs": True, "ci_nonascii": True, "zero_counts": True, "skipuntil_ci": True}
     shards += E.random_shards(PROP, run, JUDGES, profile="full", count=run.pick(40, 450), cap=run.pick(100, 250), maxlen=4, extra={"pipelines": np, "extra_alpha": " #", "start_rules": "all", "profile_overrides": {"zero_counts": True, "skipuntil_ci": True, "zero_width_stack_reps": True}})
     shards += E.random_shards(PROP, run, JUDGES, profile="core", count=run.pick(30, 350), cap=run.pick(100, 250), maxlen=4, extra={"pipelines": np, "profile_overrides": ov, "long_inputs": 2})
     shards += E.random_shards(PROP, run, JUDGES, profile="trivia", count=run.pick(30, 350), cap=run.pick(100, 250), maxlen=4, extra={"pipelines": np, "profile_overrides": ov, "extra_alpha": " #", "rename": True, "start_rules": "all"})
